@@ -71,8 +71,13 @@ def main(tier, seed):
             try:
                 fxy, fyx, fxx = f(x, y), f(y, x), f(x, x)
                 fyz, fxz = f(y, z), f(x, z)
-            except ZeroDivisionError:
-                stats["skipped_zero_division"] += 1   # numba raises on scalar division by zero (zero-norm vectors): outside every domain
+            except ZeroDivisionError as ex:
+                stats["skipped_zero_division"] += 1   # numba raises on a scalar division by zero: not a finite value
+                nviol += 1
+                key = "finite:" + name
+                if key not in seen_keys and len(seen_keys) < 6:
+                    seen_keys.add(key)
+                    rep.violation("%s raises ZeroDivisionError on its domain" % name, dict(metric=name, x=x, y=y, z=z), key=key)
                 continue
             stats["evaluations"] += 5
             rep.count_case((name, tuple(x), tuple(y), tuple(z)), True)
